@@ -4,3 +4,5 @@ import GstVerif.Grid.Model
 import GstVerif.Grid.Driver
 import GstVerif.Poly.Model
 import GstVerif.Poly.Driver
+import GstVerif.Db.Model
+import GstVerif.Db.Driver
